@@ -55,7 +55,11 @@ func init() {
 				},
 				Config: func(w *sim.World, n int, cfg *config.Config) {
 					cfg.ConfigDir = p.Params["cfgdir"]
-					cfg.Plugins = map[string]config.Configuration{"auth": &auth.Config{PasswordFile: p.Params["pwfile"], Hash: p.Params["hash"]}}
+					hash := p.Params["hash"]
+					if w.Nodes[n].Gen > 1 && p.Params["hash2"] != "" {
+						hash = p.Params["hash2"] // the operator changed the algorithm before the restart
+					}
+					cfg.Plugins = map[string]config.Configuration{"auth": &auth.Config{PasswordFile: p.Params["pwfile"], Hash: hash}}
 					cfg.PluginOrder = []string{"auth"}
 				},
 				Custom: map[string]func(w *sim.World, op *sim.Op) any{
@@ -114,6 +118,7 @@ func genC19(rng *rand.Rand, tier string) *sim.Plan {
 	p := NewPlan("C19", rng.Uint64(), rng)
 	p.Params = map[string]string{
 		"hash":   pick(rng, []string{"plain", "md5", "sha256", "bcrypt"}),
+		"hash2":  pick(rng, []string{"", "", "plain", "md5", "sha256", "bcrypt", "bcrypt"}),
 		"cfgdir": pick(rng, []string{"/cwd", "/cwd", "/cfg"}),
 		"pwfile": pick(rng, []string{"pw.yml", "./pw.yml", "/abs/pw.yml", "sub/pw.yml"}),
 	}
@@ -157,9 +162,12 @@ func genC19(rng *rand.Rand, tier string) *sim.Plan {
 				op.User = sim.Str(pick(rng, users))
 				op.Pass = sim.Str(pick(rng, passes))
 			}
-			if p.Clients[c].Ver == 5 && chance(rng, 0.15) {
-				op.AuthMethod = sim.Str("SCRAM")
-				op.AuthData = []byte("x")
+			if p.Clients[c].Ver == 5 && chance(rng, 0.2) {
+				// an authentication method the broker has no handler for — also the zero-length one
+				op.AuthMethod = sim.Str(pick(rng, []string{"SCRAM", "SCRAM", "", "x"}))
+				if *op.AuthMethod != "" && chance(rng, 0.7) {
+					op.AuthData = []byte("x")
+				}
 			}
 			cp.Ops = append(cp.Ops, op)
 			// whatever the outcome, try to leave a trace
@@ -229,6 +237,16 @@ func oracleC19(p *sim.Plan, out *sim.Outcome) []sim.Violation {
 	}
 	// restart points: after a restart only what is on disk counts; with the sandbox that is what the model
 	// says for acknowledged changes (a failed save must have left the file unchanged)
+	// a restart under another hash algorithm: what was stored before it is a hash the configured algorithm cannot
+	// match (the account exists, no password fits) until the account is changed again
+	algoSwitch := -1
+	if h2 := p.Params["hash2"]; h2 != "" && h2 != p.Params["hash"] {
+		for _, o := range h.Ops {
+			if o.Op.K == "api_start" && o.Inv >= 0 && algoSwitch < 0 {
+				algoSwitch = o.Inv
+			}
+		}
+	}
 	validAt := func(user, pass string, q [2]int) (must, may bool) {
 		// possible states of the account during window q
 		var definite *change
@@ -236,6 +254,16 @@ func oracleC19(p *sim.Plan, out *sim.Outcome) []sim.Violation {
 		for i := range chs {
 			c := chs[i]
 			if c.user != user || c.failed {
+				continue
+			}
+			if algoSwitch >= 0 && q[0] > algoSwitch && c.inv < algoSwitch && c.pass != nil {
+				unusable := "\x00stored under the previous algorithm"
+				c.pass = &unusable
+				chs2 := c
+				if c.resp >= 0 && c.resp < q[0] {
+					definite = &chs2
+					maybe = nil
+				}
 				continue
 			}
 			if c.resp >= 0 && c.resp < q[0] {
